@@ -152,6 +152,7 @@ def run(prop, monitor_cls, seed=0, index=0, n_ops=10, ops=None, header=None, dig
                 if op is None:
                     break
             res.ops.append(op)
+            mon.focus = (getattr(mon, "focus", []) + touched_objects(op))[-6:]
             try:
                 status = mon.step(i, op)
             except Violation as v:
@@ -205,6 +206,21 @@ def topo_signature(sp):
                     users[m] += 1
     shared = Counter(objs[n]["cls"] for n, c in users.items() if c > 1 and n in objs)
     return ",".join(f"{c}{cnt[c]}" for c in sorted(cnt)) + "|" + ",".join(f"{c}{shared[c]}" for c in sorted(shared))
+
+
+def touched_objects(op):
+    """Names an op refers to (for the generator's focus)."""
+    out = []
+    if "obj" in op:
+        out.append(op["obj"])
+    for ch in op.get("changes", []):
+        out.append(ch["obj"])
+    for sub in op.get("steps", []):
+        out.extend(touched_objects(sub))
+    v = op.get("value")
+    if isinstance(v, list) and v and v[0] == "ref":
+        out.append(v[1])
+    return out
 
 
 class BaseMonitor:
